@@ -404,6 +404,24 @@ func (c *charCtx) compareSet(bo *ssa.BinOp) (ByteSet, bool) {
 		kv := k.Int64()
 		// reading the byte of the end-of-input operand is not possible: excluded
 		return setOfBytes(func(b byte) bool { return cmpInt(op, int64(b), kv) }, false), true
+	case c.isOperandString(x) && k.Value.Kind() == constant.String && op != token.EQL && op != token.NEQ:
+		// ordering of one-character strings (c >= "a" && c <= "z"): Go's string comparison, with
+		// the end of the input being the empty string
+		ks := constant.StringVal(k.Value)
+		cmp := func(a string) bool {
+			switch op {
+			case token.LSS:
+				return a < ks
+			case token.LEQ:
+				return a <= ks
+			case token.GTR:
+				return a > ks
+			case token.GEQ:
+				return a >= ks
+			}
+			return false
+		}
+		return setOfBytes(func(b byte) bool { return cmp(string([]byte{b})) }, cmp("")), true
 	case c.isOperandString(x) && k.Value.Kind() == constant.String && (op == token.EQL || op == token.NEQ):
 		ks := constant.StringVal(k.Value)
 		var s ByteSet
